@@ -70,7 +70,8 @@ def Src.view (s : Src) : List Char := s.cur.drop (s.idx + 1).toNat ++ s.rest.fla
 /-- Result of a sub-scanner: value, new line number, cursor; or error at a line. -/
 inductive CScan (α : Type)
   | ok (v : α) (line : Nat) (src : Src)
-  | err (e : Err) (line : Nat)
+  /-- `src` is the cursor at the `raise` (used only to count `_next_char` calls). -/
+  | err (e : Err) (line : Nat) (src : Src)
 deriving Repr
 
 /-! ## `_handle_string` -/
@@ -79,10 +80,10 @@ deriving Repr
 the *local* `last_was_cr`. -/
 def handleString (T : Tables) (allowEsc : Bool) :
     Nat → Src → List Char → Bool → Nat → CScan (List Char)
-  | 0, _, _, _, line => .err .outOfFuel line
+  | 0, s, _, _, line => .err .outOfFuel line s
   | f + 1, s, acc, lastCr, line =>
     match s.next with
-    | (none, _) => .err .untermString line
+    | (none, se) => .err .untermString line se
     | (some c, s1) =>
       if c = '"' then .ok acc.reverse line s1
       else if c = '\r' then handleString T allowEsc f s1 ('\n' :: acc) true (line + 1)
@@ -91,7 +92,7 @@ def handleString (T : Tables) (allowEsc : Bool) :
         else handleString T allowEsc f s1 ('\n' :: acc) false (line + 1)
       else if c = '\\' ∧ allowEsc then
         match s1.next with
-        | (none, _) => .err .noCharToEscape line
+        | (none, se) => .err .noCharToEscape line se
         | (some e, s2) =>
           if e = '\n' then handleString T allowEsc f s2 acc false line
           else match T.unescape e with
@@ -103,33 +104,33 @@ def handleString (T : Tables) (allowEsc : Bool) :
 
 /-- `[flag]` loop (string_bracket mode), after the `[`. -/
 def scanBracket : Nat → Src → List Char → Nat → CScan (List Char)
-  | 0, _, _, line => .err .outOfFuel line
+  | 0, s, _, line => .err .outOfFuel line s
   | f + 1, s, acc, line =>
     match s.next with
-    | (none, _) => .err .untermFlag line
+    | (none, se) => .err .untermFlag line se
     | (some c, s1) =>
       if c = ']' then .ok acc.reverse line s1
-      else if c = '\n' then .err .eolInBracket line
-      else if c = '[' then .err .nestBracket line
+      else if c = '\n' then .err .eolInBracket line s1
+      else if c = '[' then .err .nestBracket line s1
       else scanBracket f s1 (c :: acc) line
 
 /-- `(args)` loop (string_parens mode), after the `(`. -/
 def scanParen : Nat → Src → List Char → Nat → CScan (List Char)
-  | 0, _, _, line => .err .outOfFuel line
+  | 0, s, _, line => .err .outOfFuel line s
   | f + 1, s, acc, line =>
     match s.next with
-    | (none, _) => .err .untermParen line
+    | (none, se) => .err .untermParen line se
     | (some c, s1) =>
       if c = ')' then .ok acc.reverse line s1
       else if c = '\n' then scanParen f s1 (c :: acc) (line + 1)
-      else if c = '(' then .err .nestParen line
+      else if c = '(' then .err .nestParen line s1
       else scanParen f s1 (c :: acc) line
 
 /-- The directive loop and the bare-string loop (identical but for `casefold`): the terminator is
 pushed back (`_char_index -= 1`); at end of input nothing is pushed back. -/
 def scanBare (T : Tables) (o : Opts) (fold : Char → List Char) :
     Nat → Src → List Char → Nat → CScan (List Char)
-  | 0, _, _, line => .err .outOfFuel line
+  | 0, s, _, line => .err .outOfFuel line s
   | f + 1, s, acc, line =>
     match s.next with
     | (none, s1) => .ok acc.reverse line s1
@@ -140,7 +141,7 @@ def scanBare (T : Tables) (o : Opts) (fold : Char → List Char) :
 /-- `//` loop: runs to LF or end of input, then pushes back **unconditionally** (also at end of
 input, where the index was already incremented past the chunk). -/
 def scanLineComment : Nat → Src → List Char → Nat → CScan (List Char)
-  | 0, _, _, line => .err .outOfFuel line
+  | 0, s, _, line => .err .outOfFuel line s
   | f + 1, s, acc, line =>
     match s.next with
     | (none, s1) => .ok acc.reverse line s1.back
@@ -151,15 +152,15 @@ def scanLineComment : Nat → Src → List Char → Nat → CScan (List Char)
 /-- `/* */` loop. After a `*` the next character is read; unless it is `/` it is pushed back and
 re-read by the next iteration. -/
 def scanStarComment (start : Nat) : Nat → Src → List Char → Nat → CScan (List Char)
-  | 0, _, _, line => .err .outOfFuel line
+  | 0, s, _, line => .err .outOfFuel line s
   | f + 1, s, acc, line =>
     match s.next with
-    | (none, _) => .err (.unclosedComment start) line
+    | (none, se) => .err (.unclosedComment start) line se
     | (some c, s1) =>
       if c = '\n' then scanStarComment start f s1 (c :: acc) (line + 1)
       else if c = '*' then
         match s1.next with
-        | (none, _) => .err (.unclosedComment start) line
+        | (none, se) => .err (.unclosedComment start) line se
         | (some d, s2) =>
           if d = '/' then .ok acc.reverse line s2
           else scanStarComment start f s2.back acc line
@@ -170,12 +171,12 @@ produced iff `preserve_comments`), exactly as the code decides. The buffer is ac
 the code passes `None` for it; it is dropped again below. -/
 def handleComment (o : Opts) (fuel : Nat) (s : Src) (line : Nat) : CScan (List Char) :=
   match s.next with
-  | (none, _) => .err (.singleSlash o.allowStarComments) line
+  | (none, se) => .err (.singleSlash o.allowStarComments) line se
   | (some c, s1) =>
     if c = '*' then
       if o.allowStarComments then scanStarComment line fuel s1 [] line
-      else .err .starNotAllowed line
-    else if c ≠ '/' then .err (.singleSlash o.allowStarComments) line
+      else .err .starNotAllowed line s1
+    else if c ≠ '/' then .err (.singleSlash o.allowStarComments) line s1
     else scanLineComment fuel s1 [] line
 
 /-- Tokenizer state: cursor, `line_num`, `_last_was_cr`. -/
@@ -187,13 +188,13 @@ deriving Repr
 
 inductive CRes
   | tok (k : Kind) (v : List Char) (st : CSt)
-  | err (e : Err) (line : Nat)
+  | err (e : Err) (line : Nat) (src : Src)
 deriving Repr
 
 /-- `_get_token`. One unit of fuel per iteration of the outer `while True`; the inner loops get the
 same bound. -/
 def nextToken (T : Tables) (o : Opts) (fold : Char → List Char) : Nat → CSt → CRes
-  | 0, st => .err .outOfFuel st.line
+  | 0, st => .err .outOfFuel st.line st.src
   | fuel + 1, st =>
     match st.src.next with
     | (none, s1) => .tok .eof [] { st with src := s1 }
@@ -209,43 +210,43 @@ def nextToken (T : Tables) (o : Opts) (fold : Char → List Char) : Nat → CSt 
     if c = ' ' ∨ c = '\t' then nextToken T o fold fuel { src := s1, line := st.line, lastCr := false }
     else if c = '/' then
       match handleComment o fuel s1 st.line with
-      | .err e l => .err e l
+      | .err e l s => .err e l s
       | .ok v l s2 =>
         if o.preserveComments then .tok .comment v { src := s2, line := l, lastCr := false }
         else nextToken T o fold fuel { src := s2, line := l, lastCr := false }
     else if c = '"' then
       match handleString T o.allowEscapes fuel s1 [] false st.line with
-      | .err e l => .err e l
+      | .err e l s => .err e l s
       | .ok v l s2 => .tok .string v { src := s2, line := l, lastCr := false }
     else if c = '[' then
       if !o.stringBracket then .tok .brackOpen ['['] { src := s1, line := st.line, lastCr := false }
       else match scanBracket fuel s1 [] st.line with
-        | .err e l => .err e l
+        | .err e l s => .err e l s
         | .ok v l s2 => .tok .propFlag v { src := s2, line := l, lastCr := false }
     else if c = '(' then
       if !o.stringParens then .tok .parenOpen ['('] { src := s1, line := st.line, lastCr := false }
       else match scanParen fuel s1 [] st.line with
-        | .err e l => .err e l
+        | .err e l s => .err e l s
         | .ok v l s2 => .tok .parenArgs v { src := s2, line := l, lastCr := false }
     else if c = Char.ofNat 0xFEFF ∧ st.line = 1 then
       nextToken T o fold fuel { src := s1, line := st.line, lastCr := false }
     else if c = ':' ∧ o.colonOperator then .tok .colon [':'] { src := s1, line := st.line, lastCr := false }
     else if c = '+' ∧ o.plusOperator then .tok .plus ['+'] { src := s1, line := st.line, lastCr := false }
     else if c = ']' then
-      if o.stringBracket then .err .noOpenBracket st.line
+      if o.stringBracket then .err .noOpenBracket st.line s1
       else .tok .brackClose [']'] { src := s1, line := st.line, lastCr := false }
     else if c = ')' then
-      if o.stringParens then .err .noOpenParen st.line
+      if o.stringParens then .err .noOpenParen st.line s1
       else .tok .parenClose [')'] { src := s1, line := st.line, lastCr := false }
     else if c = '#' then
       match scanBare T o fold fuel s1 [] st.line with
-      | .err e l => .err e l
+      | .err e l s => .err e l s
       | .ok v l s2 => .tok .directive v { src := s2, line := l, lastCr := false }
     else if !T.bareDisallowed.contains c then
       match scanBare T o (fun x => [x]) fuel s1 [c] st.line with
-      | .err e l => .err e l
+      | .err e l s => .err e l s
       | .ok v l s2 => .tok .string v { src := s2, line := l, lastCr := false }
-    else .err (.unexpectedChar c) st.line
+    else .err (.unexpectedChar c) st.line s1
 
 /-- Call `nextToken` until EOF or error, recording (kind, value, line_num after the token). -/
 def runAux (T : Tables) (o : Opts) (fold : Char → List Char) :
@@ -253,7 +254,7 @@ def runAux (T : Tables) (o : Opts) (fold : Char → List Char) :
   | 0, st, acc => { toks := acc.reverse, err := some (.outOfFuel, st.line) }
   | n + 1, st, acc =>
     match nextToken T o fold (st.src.view.length + 1) st with
-    | .err e l => { toks := acc.reverse, err := some (e, l) }
+    | .err e l _ => { toks := acc.reverse, err := some (e, l) }
     | .tok k v st' =>
       let ob : Obs := { kind := k.code, value := v, line := st'.line }
       if k = .eof then { toks := (ob :: acc).reverse, err := none }
@@ -262,5 +263,17 @@ def runAux (T : Tables) (o : Opts) (fold : Char → List Char) :
 /-- The observable stream of a fresh tokenizer over cursor `s`. -/
 def run (T : Tables) (o : Opts) (fold : Char → List Char) (s : Src) : Run :=
   runAux T o fold (s.view.length + 2) { src := s } []
+
+/-- The number of `_next_char` calls made by the run of `runAux`, up to and including the call that
+returned EOF or raised. -/
+def runCallsAux (T : Tables) (o : Opts) (fold : Char → List Char) : Nat → CSt → Nat
+  | 0, st => st.src.calls
+  | n + 1, st =>
+    match nextToken T o fold (st.src.view.length + 1) st with
+    | .err _ _ s => s.calls
+    | .tok k _ st' => if k = .eof then st'.src.calls else runCallsAux T o fold n st'
+
+def runCalls (T : Tables) (o : Opts) (fold : Char → List Char) (s : Src) : Nat :=
+  runCallsAux T o fold (s.view.length + 2) { src := s }
 
 end TokC
